@@ -697,3 +697,268 @@ Section Training.
       rewrite after_treg_s1. eapply tcell_inspect_inside_s1; eauto.
   Qed.
 End Training.
+
+(* ---------------------------------------------------------------------- *)
+(* the display: every inspection judges the fingerprint of the CURRENT window *)
+
+Definition lastn {A : Type} (n : nat) (l : list A) : list A := skipn (length l - n) l.
+
+(* everything recorded so far (since the last clear), without any truncation *)
+Definition rec_step (acc : list Z) (a : aop) : list Z :=
+  match a with ARecord o => acc ++ [o] | AClear => [] | _ => acc end.
+Definition can_step (acc : list bool) (a : aop) : list bool :=
+  match a with ACanary b => acc ++ [b] | AClear => [] | _ => acc end.
+Definition recorded (acc : list Z) (pre : list aop) : list Z := fold_left rec_step pre acc.
+Definition canaries (acc : list bool) (pre : list aop) : list bool := fold_left can_step pre acc.
+Definition disp_after (d : display) (pre : list aop) : display := fold_left disp_step pre d.
+
+Lemma skipn_S_tl : forall (A : Type) k (l : list A), skipn (S k) l = tl (skipn k l).
+Proof.
+  induction k as [|k IH]; intros l.
+  - destruct l; reflexivity.
+  - destruct l as [|x l]; [reflexivity|]. change (skipn (S k) l = tl (skipn k l)). apply IH.
+Qed.
+
+Lemma record_lastn : forall n (L : list Z) o,
+  (if (n <? length (lastn n L ++ [o]))%nat then tl (lastn n L ++ [o]) else lastn n L ++ [o])
+  = lastn n (L ++ [o]).
+Proof.
+  intros n L o. unfold lastn. rewrite !app_length. cbn [length].
+  destruct (Nat.le_gt_cases (length L) n) as [LE|GT].
+  - replace (length L - n)%nat with 0%nat by lia. cbn [skipn].
+    destruct (n <? length L + 1)%nat eqn:C.
+    + apply Nat.ltb_lt in C. replace (length L + 1 - n)%nat with 1%nat by lia.
+      destruct (L ++ [o]); reflexivity.
+    + apply Nat.ltb_ge in C. replace (length L + 1 - n)%nat with 0%nat by lia. reflexivity.
+  - rewrite skipn_length.
+    replace (n <? length L - (length L - n) + 1)%nat with true
+      by (symmetry; apply Nat.ltb_lt; lia).
+    replace (length L + 1 - n)%nat with (S (length L - n)) by lia.
+    rewrite skipn_S_tl, skipn_app.
+    replace (length L - n - length L)%nat with 0%nat by lia. reflexivity.
+Qed.
+
+Lemma disp_step_cfg : forall d a, d_size (disp_step d a) = d_size d /\ d_min (disp_step d a) = d_min d.
+Proof. intros d a. destruct a; cbn; auto. Qed.
+
+Lemma disp_after_cfg : forall pre d,
+  d_size (disp_after d pre) = d_size d /\ d_min (disp_after d pre) = d_min d.
+Proof.
+  induction pre as [|a pre IH]; intros d; [split; reflexivity|]. unfold disp_after in *. cbn [fold_left].
+  destruct (IH (disp_step d a)) as [A B]. destruct (disp_step_cfg d a) as [C D]. split; congruence.
+Qed.
+
+Lemma disp_window : forall pre d,
+  (length (d_obs d) <= d_size d)%nat ->
+  d_obs (disp_after d pre) = lastn (d_size d) (recorded (d_obs d) pre) /\
+  d_canary (disp_after d pre) = canaries (d_canary d) pre.
+Proof.
+  induction pre as [|a pre IH] using rev_ind; intros d H.
+  - split; [|reflexivity]. unfold lastn, recorded, disp_after. cbn [fold_left].
+    replace (length (d_obs d) - d_size d)%nat with 0%nat by lia. reflexivity.
+  - destruct (IH d H) as [W C]. unfold disp_after, recorded, canaries in *.
+    rewrite !fold_left_app. cbn [fold_left].
+    set (dp := fold_left disp_step pre d) in *.
+    assert (S : d_size dp = d_size d) by apply (disp_after_cfg pre d).
+    destruct a; cbn [disp_step rec_step can_step d_obs d_canary disp_record]; auto.
+    + split; [|exact C]. rewrite W, S. apply record_lastn.
+    + split; [exact W|]. rewrite C. reflexivity.
+Qed.
+
+(* state reached after a prefix of an API history *)
+Fixpoint api_final (pf : list Z -> list bool -> peptide) (rnd : Q -> Q) (lg : bool) (g : cfg)
+         (d : display) (s : sys) (aops : list aop) : display * sys :=
+  match aops with
+  | [] => (d, s)
+  | a :: rest =>
+      match lower pf d a with
+      | Some o => api_final pf rnd lg g d (fst (sys_step rnd lg g s o)) rest
+      | None => api_final pf rnd lg g (disp_step d a) s rest
+      end
+  end.
+
+Lemma lower_disp_step : forall pf d a o, lower pf d a = Some o -> disp_step d a = d.
+Proof. intros pf d a o H. destruct a; cbn in *; try discriminate; reflexivity. Qed.
+
+Lemma api_final_disp : forall pf rnd lg g pre d s,
+  fst (api_final pf rnd lg g d s pre) = disp_after d pre.
+Proof.
+  induction pre as [|a pre IH]; intros d s; [reflexivity|]. cbn [api_final]. unfold disp_after. cbn [fold_left].
+  destruct (lower pf d a) as [o|] eqn:L.
+  - rewrite (lower_disp_step _ _ _ _ L). apply IH.
+  - apply IH.
+Qed.
+
+Lemma api_run_app : forall pf rnd lg g pre rest d s,
+  api_run pf rnd lg g d s (pre ++ rest) =
+  api_run pf rnd lg g d s pre ++
+  api_run pf rnd lg g (fst (api_final pf rnd lg g d s pre)) (snd (api_final pf rnd lg g d s pre)) rest.
+Proof.
+  induction pre as [|a pre IH]; intros rest d s; [reflexivity|]. cbn [app api_run api_final].
+  destruct (lower pf d a) as [o|].
+  - destruct (sys_step rnd lg g s o) as [s' out]. cbn [fst app]. rewrite IH. reflexivity.
+  - cbn [app]. rewrite IH. reflexivity.
+Qed.
+
+Lemma api_run_length : forall pf rnd lg g pre d s,
+  length (api_run pf rnd lg g d s pre) = length pre.
+Proof.
+  induction pre as [|a pre IH]; intros d s; [reflexivity|]. cbn [api_run].
+  destruct (lower pf d a) as [o|]; [destruct (sys_step rnd lg g s o)|]; cbn [length]; rewrite IH; reflexivity.
+Qed.
+
+Lemma run_app : forall rnd lg g o1 o2 s,
+  run rnd lg g s (o1 ++ o2) = run rnd lg g s o1 ++ run rnd lg g (final rnd lg g s o1) o2.
+Proof.
+  induction o1 as [|o o1 IH]; intros o2 s; [reflexivity|]. cbn [app run final].
+  destruct (sys_step rnd lg g s o) as [s' out]. cbn [fst app]. rewrite IH. reflexivity.
+Qed.
+
+Lemma lowered_app : forall pf pre rest d,
+  lowered pf d (pre ++ rest) = lowered pf d pre ++ lowered pf (disp_after d pre) rest.
+Proof.
+  induction pre as [|a pre IH]; intros rest d; [reflexivity|]. cbn [app lowered]. unfold disp_after. cbn [fold_left].
+  destruct (lower pf d a) as [o|] eqn:L.
+  - rewrite (lower_disp_step _ _ _ _ L). cbn [app]. rewrite IH. reflexivity.
+  - apply IH.
+Qed.
+
+Lemma api_final_sys : forall pf rnd lg g pre d s,
+  snd (api_final pf rnd lg g d s pre) = final rnd lg g s (lowered pf d pre).
+Proof.
+  induction pre as [|a pre IH]; intros d s; [reflexivity|]. cbn [api_final lowered].
+  destruct (lower pf d a) as [o|]; [cbn [final]|]; apply IH.
+Qed.
+
+(* the API call at position [length pre] of any history runs the system-level
+   operation it lowers to on the display reached by [pre]; that operation with
+   its outcome is an element of the lowered system-level trace *)
+Lemma api_entry : forall pf rnd lg g d0 s0 pre a post o,
+  lower pf (disp_after d0 pre) a = Some o ->
+  exists s out s',
+    nth_error (api_run pf rnd lg g d0 s0 (pre ++ a :: post)) (length pre)
+      = Some (disp_after d0 pre, s, a, out) /\
+    sys_step rnd lg g s o = (s', out) /\
+    In (s, o, out) (run rnd lg g s0 (lowered pf d0 (pre ++ a :: post))).
+Proof.
+  intros pf rnd lg g d0 s0 pre a post o L.
+  set (s := snd (api_final pf rnd lg g d0 s0 pre)).
+  destruct (sys_step rnd lg g s o) as [s' out] eqn:E.
+  exists s, out, s'. split; [|split; [exact E|]].
+  - rewrite api_run_app, nth_error_app2 by (rewrite api_run_length; lia).
+    rewrite api_run_length, Nat.sub_diag, api_final_disp. fold s. cbn [api_run]. rewrite L, E. reflexivity.
+  - rewrite lowered_app, run_app. apply in_or_app. right. cbn [lowered]. rewrite L. cbn [run].
+    unfold s in *. rewrite api_final_sys in *. rewrite E. left. reflexivity.
+Qed.
+
+Lemma current_window_proof : forall pf rnd lg g d0 s0 pre post,
+  (length (d_obs d0) <= d_size d0)%nat ->
+  let w := lastn (d_size d0) (recorded (d_obs d0) pre) in
+  let c := canaries (d_canary d0) pre in
+  let fp := fingerprint_of pf (d_min d0) w c in
+  (exists d s out s',
+     nth_error (api_run pf rnd lg g d0 s0 (pre ++ AInspect :: post)) (length pre) = Some (d, s, AInspect, out) /\
+     d_obs d = w /\ d_canary d = c /\
+     sys_step rnd lg g s (OInspect fp) = (s', out) /\
+     In (s, OInspect fp, out) (run rnd lg g s0 (lowered pf d0 (pre ++ AInspect :: post)))) /\
+  (exists d s out s',
+     nth_error (api_run pf rnd lg g d0 s0 (pre ++ ATrain :: post)) (length pre) = Some (d, s, ATrain, out) /\
+     d_obs d = w /\ d_canary d = c /\
+     sys_step rnd lg g s (OTrain fp) = (s', out) /\
+     In (s, OTrain fp, out) (run rnd lg g s0 (lowered pf d0 (pre ++ ATrain :: post)))).
+Proof.
+  intros pf rnd lg g d0 s0 pre post H w c fp.
+  destruct (disp_window pre d0 H) as [W C]. destruct (disp_after_cfg pre d0) as [_ M].
+  assert (F : fingerprint pf (disp_after d0 pre) = fp).
+  { unfold fingerprint, fp, w, c. rewrite W, C, M. reflexivity. }
+  split.
+  - destruct (api_entry pf rnd lg g d0 s0 pre AInspect post (OInspect fp)) as [s [out [s' [N [E I]]]]].
+    { cbn [lower]. rewrite F. reflexivity. }
+    exists (disp_after d0 pre), s, out, s'. auto.
+  - destruct (api_entry pf rnd lg g d0 s0 pre ATrain post (OTrain fp)) as [s [out [s' [N [E I]]]]].
+    { cbn [lower]. rewrite F. reflexivity. }
+    exists (disp_after d0 pre), s, out, s'. auto.
+Qed.
+
+(* ---------------------------------------------------------------------- *)
+(* across memory: a reported action is never more than one step below the   *)
+(* action that belongs to the reported level                                *)
+
+Definition within_one_step (l : level) (a : action) : Prop := same_or_one_lower (level_action l) a.
+Definition mem_ok (mem : list msig) : Prop := Forall (fun m => within_one_step (m_level m) (m_action m)) mem.
+(* signatures stored from outside are themselves within one step *)
+Definition op_ok (o : op) : Prop := match o with OStore m => within_one_step (m_level m) (m_action m) | _ => True end.
+
+Lemma remove_nth_Forall : forall (A : Type) (P : A -> Prop) i (l : list A),
+  Forall P l -> Forall P (remove_nth i l).
+Proof.
+  intros A P i l H. revert i. induction H as [|x l Hx Hl IH]; intros i.
+  - destruct i; constructor.
+  - destruct i; cbn; [exact Hl|]. constructor; [exact Hx|apply IH].
+Qed.
+
+Lemma sys_inspect_mem : forall g s t p s' out,
+  s_tcell s = Some t -> sys_inspect false g s (Some p) = (s', out) ->
+  s' = s \/
+  (exists t' r0, tcell_inspect t p = (t', r0) /\
+     s_mem s' = if stores (r_level (fst (after_treg g r0 (s_rec s))))
+                then s_mem s ++ [mkSig 0 (p_vh p) (p_sh p) (r_level (fst (after_treg g r0 (s_rec s))))
+                                       (r_action (fst (after_treg g r0 (s_rec s))))]
+                else s_mem s).
+Proof.
+  intros g s t p s' out Ht H. unfold sys_inspect in H. rewrite Ht in H. cbn [orb] in H.
+  destruct (if negb (is_anergic t) && nonempty (check (t_prof t) p) then recall (s_mem s) p else None)
+    as [m|] eqn:R.
+  - left. inversion H; subst. reflexivity.
+  - right. destruct (tcell_inspect t p) as [t' r0] eqn:TI. exists t', r0.
+    split; [reflexivity|]. unfold after_treg.
+    destruct (s_rec s) as [rc|]; inversion H; subst; cbn; reflexivity.
+Qed.
+
+Lemma within_step : forall rnd g s o s' out,
+  mem_ok (s_mem s) -> op_ok o -> sys_step rnd false g s o = (s', out) ->
+  mem_ok (s_mem s') /\
+  (forall p r sp, o = OInspect (Some p) -> out = OutResp r sp -> within_one_step (r_level r) (r_action r)).
+Proof.
+  intros rnd g s o s' out M OK H. destruct o; cbn [sys_step] in H;
+    try (inversion H; subst; cbn; split; [exact M|intros; discriminate]).
+  - (* inspect *)
+    destruct p as [p|].
+    2:{ unfold sys_inspect in H. destruct (s_tcell s); inversion H; subst; split; auto; intros; discriminate. }
+    destruct (s_tcell s) as [t|] eqn:Ht.
+    2:{ unfold sys_inspect in H. rewrite Ht in H. inversion H; subst. split; auto. intros; discriminate. }
+    assert (W : forall t' r0, tcell_inspect t p = (t', r0) ->
+                within_one_step (r_level (fst (after_treg g r0 (s_rec s)))) (r_action (fst (after_treg g r0 (s_rec s))))).
+    { intros t' r0 TI. unfold within_one_step. rewrite after_treg_level.
+      rewrite <- (tcell_inspect_wf _ _ _ _ TI). apply after_treg_action. eapply tcell_inspect_wf; eauto. }
+    split.
+    + destruct (sys_inspect_mem g s t p s' out Ht H) as [->|[t' [r0 [TI E]]]]; [exact M|].
+      rewrite E. destruct (stores _); [|exact M].
+      apply Forall_app. split; [exact M|]. constructor; [|constructor]. cbn. eapply W; eauto.
+    + intros p' r sp Ep Eo. inversion Ep; subst p'. subst out.
+      destruct (sys_inspect_inv g s t p s' _ Ht H) as [[m [_ [_ [R [O _]]]]]|[t' [r0 [TI [O _]]]]].
+      * inversion O; subst. cbn. unfold recall in R. apply find_some in R. destruct R as [I _].
+        unfold mem_ok in M. rewrite Forall_forall in M. apply M. exact I.
+      * inversion O; subst. eapply W; eauto.
+  - (* store *) inversion H; subst. cbn. split; [|intros; discriminate].
+    apply Forall_app. split; [exact M|]. constructor; [exact OK|constructor].
+  - (* forget *) inversion H; subst. cbn. split; [|intros; discriminate]. apply remove_nth_Forall. exact M.
+  - (* train *) unfold sys_train in H. split; [|intros; discriminate].
+    destruct p as [p|]; [|inversion H; subst; exact M].
+    destruct (_ <? _); [inversion H; subst; exact M|]. destruct (_ <=? _); [inversion H; subst; exact M|].
+    destruct (_ && _); inversion H; subst; exact M.
+Qed.
+
+Lemma within_one_step_proof : forall rnd g ops s0 s p r sp,
+  mem_ok (s_mem s0) -> Forall op_ok ops ->
+  In (s, OInspect (Some p), OutResp r sp) (run rnd false g s0 ops) ->
+  within_one_step (r_level r) (r_action r).
+Proof.
+  intros rnd g ops. induction ops as [|o ops IH]; intros s0 s p r sp M F H; cbn [run] in H.
+  - contradiction.
+  - destruct (sys_step rnd false g s0 o) as [s1 out] eqn:E. inversion F; subst.
+    destruct (within_step rnd g s0 o s1 out M H2 E) as [M1 W].
+    destruct H as [H|H].
+    + inversion H; subst. eapply W; reflexivity.
+    + eapply IH; eauto.
+Qed.
